@@ -35,7 +35,7 @@ import (
 	"verif/internal/gen"
 )
 
-const rule = "five sub-checks. crash: transaction-heavy programs (bodies 1-300 ops, values up to several log buffers) killed in a child at a " +
+const rule = "six sub-checks. crash: transaction-heavy programs (bodies 1-300 ops, values up to several log buffers) killed in a child at a " +
 	"hit of wal.batch.*/storage.batch.*/tx.commit.*/wal.sync.* sites, prefix-state oracle (a strict subset of a transaction is not a prefix state). " +
 	"torn: the newest log is cut at byte offsets inside the last committed transaction's byte range, reopen must give the state before or after " +
 	"that transaction. visibility: one writer commits tagged transactions over all K keys (engine Commit or service BatchWrite) while readers " +
@@ -44,8 +44,9 @@ const rule = "five sub-checks. crash: transaction-heavy programs (bodies 1-300 o
 	"and one value buffer; map-model oracle, also after reopen. iofault: tx/batch/put/delete/flush/reopen programs (synchronous logging) run under a " +
 	"generated file-size limit (RLIMIT_FSIZE) so that a log write fails part-way like on a full disk, rotation starts a fresh file and later writes " +
 	"succeed again; after every step every key must read as the acknowledged state (a failed transaction leaves no trace, an acknowledged one is " +
-	"complete), also after reopen. non-trivial: crash strictly inside the commit path / cut strictly inside the " +
-	"batch / a reader observation that saw the tag change (overlapped a commit) / a body with a repeated key / at least one write failed under the limit; distinct by case hash"
+	"complete), also after reopen. shared: 1-6 goroutines put fresh keys into ONE transaction while another goroutine commits or rolls it back " +
+	"after a drawn delay; every put that returned nil is visible after a successful commit and none after a rollback or failed commit. non-trivial: crash strictly inside the commit path / cut strictly inside the " +
+	"batch / a reader observation that saw the tag change (overlapped a commit) / a body with a repeated key / at least one write failed under the limit / a put lost the race against the finish and was refused; distinct by case hash"
 
 func TestMain(m *testing.M) {
 	if os.Getenv("VERIF_CHILD_SPEC") != "" {
@@ -79,6 +80,7 @@ type Doc struct {
 	Vis      *VisCase         `json:"vis,omitempty"`
 	Buf      *BufCase         `json:"buf,omitempty"`
 	IO       *IOCase          `json:"io,omitempty"`
+	Shared   *SharedCase      `json:"shared,omitempty"`
 	Failure  string           `json:"failure,omitempty"`
 	History  []string         `json:"history,omitempty"`
 }
@@ -840,6 +842,7 @@ func runBuf(c *BufCase) (*drive.Failure, []string, bool) {
 	kbuf := make([]byte, 0, 4200)
 	vbuf := make([]byte, 0, 70000)
 	nt := false
+	commitFailed := false
 	check := func(when string) *drive.Failure {
 		for i, k := range c.Keys {
 			got, err := e.Get(k)
@@ -900,13 +903,18 @@ func runBuf(c *BufCase) (*drive.Failure, []string, bool) {
 		}
 		if txc.Commit {
 			if err := tx.Commit(); err != nil {
-				return &drive.Failure{Sig: "buf:commit-error", Msg: err.Error()}, nil, nt
-			}
-			for k, v := range pending {
-				model[k] = v
-			}
-			for k := range pendDel {
-				delete(model, k)
+				// the property does not say that a commit cannot fail; a FAILED
+				// transaction leaves no trace: the model stays as it is, and the
+				// comparisons below (also after the reopen) judge that
+				ev.R().Count("buffer_commits_that_reported_an_error", 1)
+				commitFailed = true
+			} else {
+				for k, v := range pending {
+					model[k] = v
+				}
+				for k := range pendDel {
+					delete(model, k)
+				}
 			}
 		} else {
 			if err := tx.Rollback(); err != nil {
@@ -949,6 +957,9 @@ func runBuf(c *BufCase) (*drive.Failure, []string, bool) {
 	if nt {
 		classes = append(classes, "buf:repeated_key_in_body")
 	}
+	if commitFailed {
+		classes = append(classes, "buf:a_commit_reported_an_error")
+	}
 	return nil, classes, nt
 }
 
@@ -964,7 +975,12 @@ func genBuf(t *rapid.T) BufCase {
 			if rapid.IntRange(0, 2).Draw(t, "del") == 0 {
 				op.Del = true
 			} else {
-				op.Len = rapid.SampledFrom([]int{0, 1, 3, 8, 40, 300, 5000, 40000}).Draw(t, "len")
+				op.Len = rapid.SampledFrom([]int{0, 1, 3, 8, 40, 300, 5000, 40000, -1, -1}).Draw(t, "len")
+				if op.Len < 0 {
+					// the entry's log payload (17 + key + value bytes) lands on, or a few
+					// bytes around, the largest unfragmented record (32768)
+					op.Len = 32768 - 17 - len(c.Keys[op.K]) + rapid.IntRange(-8, 3).Draw(t, "edge_d")
+				}
 				op.Tag = tag
 				tag++
 			}
@@ -1024,6 +1040,11 @@ func TestReplay(t *testing.T) {
 		f, _, _ = runBuf(d.Buf)
 	case "iofault":
 		f, _, _ = runIO(d.IO)
+	case "shared":
+		// schedule dependent: re-execute
+		for i := 0; i < 30 && f == nil; i++ {
+			f, _, _ = runShared(d.Shared)
+		}
 	default:
 		t.Fatalf("unknown kind %q", d.Kind)
 	}
